@@ -30,7 +30,8 @@ ENTRIES = {
                 "width K and decides for every enumerated payload the verdict the statement demands: the honest payload "
                 "under the header's app version must be accepted and the returned square must be the header's square; "
                 "truncation at every share boundary (also +1 byte and -1 byte), appended shares/bytes (up to the next "
-                "square sizes), swaps, duplicates, replaced shares, rotation, shares of another block, all-zero shares, "
+                "square sizes), crafted oversize payloads (w^2, w^2+1, w^2+w, (w+1)^2 shares whose row starts carry the minimum "
+                "namespaces of the header's row roots), swaps, duplicates, replaced shares, rotation, shares of another block, all-zero shares, "
                 "single-byte flips in the namespace / namespace version / info byte / sequence length / data / last "
                 "byte, headers of other blocks (same width, half, double) and headers whose DAH has a column root / row "
                 "root replaced (by another block's, by one of the other axis) or swapped must be rejected; foreign app versions "
